@@ -98,6 +98,28 @@ ShlVec(x, n) ==
   IN IF s1.r = "none" THEN s1
      ELSE IF div # 0 THEN ShlLimbs(s1.v, div) ELSE s1
 
+\* -------------------------------------------- hi64 helpers for 32-bit limbs
+(* src/bigint.rs u32_to_hi64_1/2/3 and u64_to_hi64_1/2: the building blocks   *)
+(* of hi64 for both limb widths (the 32-bit ones are compiled on every target  *)
+(* but used only where limbs are 32 bits).  Arguments are BigNats below 2^32 /  *)
+(* 2^64, most significant first; result [hi, sticky] as the code returns it.    *)
+U64Hi1(r0) == [hi |-> ModPow2(Shl(r0, 64 - BitLen(r0)), 64), sticky |-> FALSE]            \* r0 << leading_zeros(r0); 0 -> 0
+U64Hi2(r0, r1) ==
+  LET ls == 64 - BitLen(r0) IN
+  IF ls = 0 THEN [hi |-> r0, sticky |-> r1 # <<>>]
+  ELSE IF ls = 64 THEN [hi |-> r1, sticky |-> r1 # <<>>]        \* r0 = 0: release semantics of the wrapping shifts (not reached from hi64 on normalised input)
+  ELSE [hi |-> Add(ModPow2(Shl(r0, ls), 64), Shr(r1, 64 - ls)), sticky |-> ModPow2(Shl(r1, ls), 64) # <<>>]
+U32Hi1(r0) == U64Hi1(r0)
+U32Hi2(r0, r1) == U64Hi1(Add(Shl(r0, 32), r1))
+U32Hi3(r0, r1, r2) == U64Hi2(r0, Add(Shl(r1, 32), r2))
+
+\* what they must mean: top 64 bits (left-aligned) of the number whose most significant limb is r0 (non-zero),
+\* and whether any lower bit is set
+HiMeans(val, h) ==
+  LET bl == BitLen(val) IN
+  IF bl <= 64 THEN h.hi = Shl(val, 64 - bl) /\ ~h.sticky
+  ELSE h.hi = Shr(val, bl - 64) /\ h.sticky = (ModPow2(val, bl - 64) # <<>>)
+
 \* leading_zeros / bit_length
 LeadingZerosVec(x) == IF x = <<>> THEN 0 ELSE LBITS - BitLen(x[Len(x)])
 BitLengthVec(x) == LBITS * Len(x) - LeadingZerosVec(x)
